@@ -160,39 +160,133 @@ func init() {
 	}
 }
 
-// ---- context model: a cancellable context is a heap object {done channel, err}; cancel closes the channel ----
-func (e *Engine) newCancelCtx(st *State) (Value, Value) {
-	done := st.alloc(&ChanObj{Cap: 0})
-	obj := st.alloc(&ArrayV{E: []Value{ChanV{done}, IfaceV{}}})
-	ctxPkg := e.prog.ImportedPackage("context")
-	var t types.Type = opaqueType
-	if ctxPkg != nil {
-		if tn, ok := ctxPkg.Members["cancelCtx"].(*ssa.Type); ok {
-			t = types.NewPointer(tn.Type())
+// ---- context model ----
+// A derived context is a heap object ArrayV{done ChanV, err, parent ctx, key, val, kind, children}: kind "cancel"
+// (WithCancel/WithTimeout/WithDeadline - timers never fire) or "value" (WithValue). Cancellation closes the done channel,
+// sets err = context.Canceled and propagates to the registered children; Value walks the parent chain.
+const (
+	cxDone = iota
+	cxErr
+	cxParent
+	cxKey
+	cxVal
+	cxKind
+	cxChildren
+)
+
+func (e *Engine) ctxType() types.Type {
+	if p := e.prog.ImportedPackage("context"); p != nil {
+		if tn, ok := p.Members["cancelCtx"].(*ssa.Type); ok {
+			return types.NewPointer(tn.Type())
 		}
 	}
-	return IfaceV{T: t, V: Ptr{Obj: obj}}, FuncV{Env: []Value{OpaqueV{fmt.Sprintf("opaque-method:cancelctx:%d", obj)}}}
+	return opaqueType
+}
+
+func (e *Engine) isModelCtx(v Value) (int, bool) {
+	iv, ok := v.(IfaceV)
+	if !ok || iv.T == nil {
+		return 0, false
+	}
+	p, ok := iv.V.(Ptr)
+	if !ok || p.Obj == 0 || !types.Identical(iv.T, e.ctxType()) {
+		return 0, false
+	}
+	return p.Obj, true
+}
+
+// nearest cancel-kind ancestor (or self); 0 if none
+func (e *Engine) cancelAncestor(st *State, v Value) int {
+	for {
+		obj, ok := e.isModelCtx(v)
+		if !ok {
+			return 0
+		}
+		o := st.obj(obj).V.(*ArrayV)
+		if o.E[cxKind].(OpaqueV).Tag == "cancel" {
+			return obj
+		}
+		v = o.E[cxParent]
+	}
+}
+
+func (e *Engine) newCtx(st *State, parent Value, kind string, key, val Value) Value {
+	var done Value = ChanV{}
+	if kind == "cancel" {
+		done = ChanV{st.alloc(&ChanObj{Cap: 0})}
+	}
+	obj := st.alloc(&ArrayV{E: []Value{done, IfaceV{}, parent, key, val, OpaqueV{kind}, &ArrayV{}}})
+	if kind == "cancel" {
+		if anc := e.cancelAncestor(st, parent); anc != 0 {
+			ao := st.wobj(anc).V.(*ArrayV)
+			kids := ao.E[cxChildren].(*ArrayV)
+			ao.E[cxChildren] = &ArrayV{E: append(append([]Value(nil), kids.E...), Ptr{Obj: obj})}
+			if ao.E[cxDone].(ChanV).Obj != 0 && st.obj(ao.E[cxDone].(ChanV).Obj).V.(*ChanObj).Closed {
+				e.cancelObj(st, obj)
+			}
+		}
+	}
+	return IfaceV{T: e.ctxType(), V: Ptr{Obj: obj}}
+}
+
+func (e *Engine) cancelObj(st *State, obj int) {
+	o := st.wobj(obj).V.(*ArrayV)
+	ch := o.E[cxDone].(ChanV)
+	co := st.wobj(ch.Obj).V.(*ChanObj)
+	if co.Closed {
+		return
+	}
+	co.Closed = true
+	st.syncVer++
+	if p := e.prog.ImportedPackage("context"); p != nil {
+		if g := p.Var("Canceled"); g != nil {
+			o.E[cxErr] = st.load(Ptr{Obj: e.globalObj(st, g)})
+		}
+	}
+	for _, k := range o.E[cxChildren].(*ArrayV).E {
+		e.cancelObj(st, k.(Ptr).Obj)
+	}
 }
 
 func init() {
 	withCancel := func(e *Engine, st *State, fn *ssa.Function, args []Value, retTo *ssa.Call) (Value, bool) {
-		c, cancel := e.newCancelCtx(st)
-		return TupleV{c, cancel}, true
+		c := e.newCtx(st, args[0], "cancel", nil, nil)
+		obj, _ := e.isModelCtx(c)
+		return TupleV{c, FuncV{Env: []Value{OpaqueV{fmt.Sprintf("opaque-method:cancelctx:%d", obj)}}}}, true
 	}
 	exact["context.WithCancel"], exact["context.WithTimeout"], exact["context.WithDeadline"] = withCancel, withCancel, withCancel
 	exact["context.WithValue"] = func(e *Engine, st *State, fn *ssa.Function, args []Value, retTo *ssa.Call) (Value, bool) {
-		return args[0], true
+		return e.newCtx(st, args[0], "value", args[1], args[2]), true
 	}
 	exact["(*context.cancelCtx).Done"] = func(e *Engine, st *State, fn *ssa.Function, args []Value, retTo *ssa.Call) (Value, bool) {
-		o := st.obj(args[0].(Ptr).Obj).V.(*ArrayV)
-		return o.E[0], true
+		anc := e.cancelAncestor(st, IfaceV{T: e.ctxType(), V: args[0]})
+		if anc == 0 {
+			return ChanV{}, true
+		}
+		return st.obj(anc).V.(*ArrayV).E[cxDone], true
 	}
 	exact["(*context.cancelCtx).Err"] = func(e *Engine, st *State, fn *ssa.Function, args []Value, retTo *ssa.Call) (Value, bool) {
-		o := st.obj(args[0].(Ptr).Obj).V.(*ArrayV)
-		return o.E[1], true
+		anc := e.cancelAncestor(st, IfaceV{T: e.ctxType(), V: args[0]})
+		if anc == 0 {
+			return IfaceV{}, true
+		}
+		return st.obj(anc).V.(*ArrayV).E[cxErr], true
 	}
 	exact["(*context.cancelCtx).Value"] = func(e *Engine, st *State, fn *ssa.Function, args []Value, retTo *ssa.Call) (Value, bool) {
-		return IfaceV{}, true
+		var v Value = IfaceV{T: e.ctxType(), V: args[0]}
+		for {
+			obj, ok := e.isModelCtx(v)
+			if !ok {
+				return IfaceV{}, true // Background/TODO carry no values
+			}
+			o := st.obj(obj).V.(*ArrayV)
+			if o.E[cxKind].(OpaqueV).Tag == "value" {
+				if c := e.equal(st, o.E[cxKey], args[1]); c != nil && c.IsTrue() {
+					return o.E[cxVal], true
+				}
+			}
+			v = o.E[cxParent]
+		}
 	}
 	exact["(*context.cancelCtx).Deadline"] = func(e *Engine, st *State, fn *ssa.Function, args []Value, retTo *ssa.Call) (Value, bool) {
 		return zero(fn.Signature.Results()), true
@@ -203,19 +297,7 @@ func init() {
 func (e *Engine) cancelCtx(st *State, tag string) {
 	var obj int
 	fmt.Sscanf(tag, "opaque-method:cancelctx:%d", &obj)
-	o := st.wobj(obj).V.(*ArrayV)
-	ch := o.E[0].(ChanV)
-	co := st.wobj(ch.Obj).V.(*ChanObj)
-	if !co.Closed {
-		co.Closed = true
-		st.syncVer++
-		p := e.prog.ImportedPackage("context")
-		if p != nil {
-			if g := p.Var("Canceled"); g != nil {
-				o.E[1] = st.load(Ptr{Obj: e.globalObj(st, g)})
-			}
-		}
-	}
+	e.cancelObj(st, obj)
 }
 
 // ---- sync/atomic typed values: plain loads/stores of the last struct field (sequentially consistent; one goroutine runs at a time) ----
